@@ -1,1 +1,443 @@
-//! placeholder (filled in with the C03 work)
+//! Independently written explicit-state recogniser for the documented grammar (DESIGN App. A).
+//! No coroutine, no shared code with memterm::parser. Used by C03 (and C19/C20 generators).
+
+use crate::call::Call;
+
+#[derive(Clone, Debug, PartialEq, Eq)]
+pub enum St {
+    Ground,
+    Esc,
+    Hash,
+    Percent,
+    Designate(char),
+    Csi { params: Vec<u32>, cur: String, private: bool },
+    Dollar,
+    OscCode,
+    Osc { code: char, buf: String },
+    OscEsc { code: char, buf: String },
+    /// Linux palette commands OSC R / OSC P: behaviour is don't-care until the next resync
+    Lenient,
+}
+
+#[derive(Clone, Debug, PartialEq, Eq)]
+pub enum Exp {
+    Ev(Call),
+    /// an OSC with a multi-character code finished here: any number of title/icon events accepted
+    OscMulti,
+    /// from here on nothing is compared (OSC R / OSC P)
+    LenientTail,
+}
+
+pub struct RefParser {
+    pub st: St,
+    pub utf8: bool,
+    pub out: Vec<Exp>,
+    /// reference state classes traversed (for coverage accounting)
+    pub path: String,
+}
+
+fn value(cur: &str) -> u32 {
+    // empty = 0; any digit-run length saturates at 9999
+    let mut v: u32 = 0;
+    for d in cur.bytes() {
+        v = v.saturating_mul(10).saturating_add((d - b'0') as u32);
+        if v > 9999 {
+            v = 9999;
+        }
+    }
+    v
+}
+
+impl RefParser {
+    pub fn new(utf8: bool) -> RefParser {
+        RefParser { st: St::Ground, utf8, out: Vec::new(), path: String::new() }
+    }
+    fn ev(&mut self, c: Call) {
+        if let Call::Draw(s) = &c {
+            if let Some(Exp::Ev(Call::Draw(prev))) = self.out.last_mut() {
+                prev.push_str(s);
+                return;
+            }
+        }
+        self.out.push(Exp::Ev(c));
+    }
+    fn c0(&mut self, c: char) -> bool {
+        match c {
+            '\u{7}' => self.ev(Call::Bell),
+            '\u{8}' => self.ev(Call::Backspace),
+            '\u{9}' => self.ev(Call::Tab),
+            '\u{a}' | '\u{b}' | '\u{c}' => self.ev(Call::Linefeed),
+            '\u{d}' => self.ev(Call::CarriageReturn),
+            _ => return false,
+        }
+        true
+    }
+    fn dispatch(&mut self, f: char, params: &[u32], private: bool) {
+        use Call::*;
+        let p0 = params.first().cloned();
+        let p1 = params.get(1).cloned();
+        let c = match f {
+            '@' => InsertCharacters(p0),
+            'A' => CursorUp(p0),
+            'B' => CursorDown(p0),
+            'C' => CursorForward(p0),
+            'D' => CursorBack(p0),
+            'E' => CursorDown1(p0),
+            'F' => CursorUp1(p0),
+            'G' => CursorToColumn(p0),
+            'H' | 'f' => CursorPosition(p0, p1),
+            'J' => EraseInDisplay(p0),
+            'K' => EraseInLine(p0),
+            'L' => InsertLines(p0),
+            'M' => DeleteLines(p0),
+            'P' => DeleteCharacters(p0),
+            'X' => EraseCharacters(p0),
+            'a' => CursorForward(p0),
+            'c' => ReportDeviceAttributes(p0),
+            'd' => CursorToLine(p0),
+            'e' => CursorDown(p0),
+            'g' => ClearTabStop(p0),
+            'h' => SetMode(params.to_vec(), private),
+            'l' => ResetMode(params.to_vec(), private),
+            'm' => Sgr(params.to_vec()),
+            'r' => SetMargins(p0, p1),
+            _ => return,
+        };
+        self.ev(c);
+    }
+    fn finish_osc(&mut self, code: char, buf: &str) {
+        let mut it = buf.chars();
+        let first = it.next();
+        let payload: String = it.collect();
+        if let Some(f) = first {
+            if f != ';' {
+                self.out.push(Exp::OscMulti);
+                return;
+            }
+        }
+        if code == '0' || code == '1' {
+            self.ev(Call::SetIconName(payload.clone()));
+        }
+        if code == '0' || code == '2' {
+            self.ev(Call::SetTitle(payload));
+        }
+    }
+    pub fn state_class(&self) -> char {
+        match self.st {
+            St::Ground => 'G',
+            St::Esc => 'E',
+            St::Hash => 'H',
+            St::Percent => 'P',
+            St::Designate(_) => 'D',
+            St::Csi { .. } => 'C',
+            St::Dollar => 'S',
+            St::OscCode => 'o',
+            St::Osc { .. } => 'O',
+            St::OscEsc { .. } => 'X',
+            St::Lenient => 'L',
+        }
+    }
+    pub fn step(&mut self, c: char) {
+        let st = std::mem::replace(&mut self.st, St::Ground);
+        self.st = match st {
+            St::Lenient => St::Lenient,
+            St::Ground => match c {
+                '\u{1b}' => St::Esc,
+                '\u{9b}' => St::Csi { params: vec![], cur: String::new(), private: false },
+                '\u{9d}' => St::OscCode,
+                '\u{e}' => {
+                    if !self.utf8 {
+                        self.ev(Call::ShiftOut);
+                    }
+                    St::Ground
+                }
+                '\u{f}' => {
+                    if !self.utf8 {
+                        self.ev(Call::ShiftIn);
+                    }
+                    St::Ground
+                }
+                _ => {
+                    if !self.c0(c) {
+                        self.ev(Call::Draw(c.to_string()));
+                    }
+                    St::Ground
+                }
+            },
+            St::Esc => match c {
+                '[' => St::Csi { params: vec![], cur: String::new(), private: false },
+                ']' => St::OscCode,
+                '#' => St::Hash,
+                '%' => St::Percent,
+                '(' | ')' => St::Designate(c),
+                'c' => {
+                    self.ev(Call::Reset);
+                    St::Ground
+                }
+                'D' => {
+                    self.ev(Call::Index);
+                    St::Ground
+                }
+                'E' => {
+                    self.ev(Call::Linefeed);
+                    St::Ground
+                }
+                'M' => {
+                    self.ev(Call::ReverseIndex);
+                    St::Ground
+                }
+                'H' => {
+                    self.ev(Call::SetTabStop);
+                    St::Ground
+                }
+                '7' => {
+                    self.ev(Call::SaveCursor);
+                    St::Ground
+                }
+                '8' => {
+                    self.ev(Call::RestoreCursor);
+                    St::Ground
+                }
+                _ => St::Ground,
+            },
+            St::Hash => {
+                if c == '8' {
+                    self.ev(Call::AlignmentDisplay);
+                }
+                St::Ground
+            }
+            St::Percent => St::Ground,
+            St::Designate(m) => {
+                if !self.utf8 {
+                    self.ev(Call::DefineCharset(c.to_string(), m.to_string()));
+                }
+                St::Ground
+            }
+            St::Csi { mut params, mut cur, mut private } => match c {
+                '?' => {
+                    private = true;
+                    St::Csi { params, cur, private }
+                }
+                '\u{7}' | '\u{8}' | '\u{9}' | '\u{a}' | '\u{b}' | '\u{c}' | '\u{d}' => {
+                    self.c0(c);
+                    St::Csi { params, cur, private }
+                }
+                ' ' | '>' => St::Csi { params, cur, private },
+                '\u{18}' | '\u{1a}' => {
+                    // abort; the character itself is a Cc text event that the comparison ignores
+                    self.ev(Call::Draw(c.to_string()));
+                    St::Ground
+                }
+                '0'..='9' => {
+                    cur.push(c);
+                    St::Csi { params, cur, private }
+                }
+                '$' => St::Dollar,
+                ';' => {
+                    params.push(value(&cur));
+                    cur.clear();
+                    St::Csi { params, cur, private }
+                }
+                f => {
+                    params.push(value(&cur));
+                    self.dispatch(f, &params, private);
+                    St::Ground
+                }
+            },
+            St::Dollar => St::Ground,
+            St::OscCode => match c {
+                'R' | 'P' => {
+                    self.out.push(Exp::LenientTail);
+                    St::Lenient
+                }
+                _ => St::Osc { code: c, buf: String::new() },
+            },
+            St::Osc { code, mut buf } => match c {
+                '\u{7}' | '\u{9c}' => {
+                    self.finish_osc(code, &buf);
+                    St::Ground
+                }
+                '\u{1b}' => St::OscEsc { code, buf },
+                _ => {
+                    buf.push(c);
+                    St::Osc { code, buf }
+                }
+            },
+            St::OscEsc { code, mut buf } => {
+                if c == '\\' {
+                    self.finish_osc(code, &buf);
+                    St::Ground
+                } else {
+                    buf.push('\u{1b}');
+                    buf.push(c);
+                    St::Osc { code, buf }
+                }
+            }
+        };
+        self.path.push(self.state_class());
+    }
+    pub fn feed(&mut self, s: &str) {
+        for c in s.chars() {
+            self.step(c);
+        }
+    }
+    pub fn is_ground(&self) -> bool {
+        self.st == St::Ground
+    }
+}
+
+fn is_cc(c: char) -> bool {
+    (c as u32) < 0x20 || ((c as u32) >= 0x7f && (c as u32) <= 0x9f)
+}
+
+fn norm_opt(n: &Option<u32>) -> Option<u32> {
+    Some(n.unwrap_or(0))
+}
+
+/// normalise a call for comparison: absent numeric argument == 0; Cc characters removed from text
+pub fn norm_call(c: &Call) -> Option<Call> {
+    use Call::*;
+    Some(match c {
+        Draw(s) => {
+            let t: String = s.chars().filter(|ch| !is_cc(*ch)).collect();
+            if t.is_empty() {
+                return None;
+            }
+            Draw(t)
+        }
+        InsertCharacters(n) => InsertCharacters(norm_opt(n)),
+        CursorUp(n) => CursorUp(norm_opt(n)),
+        CursorDown(n) => CursorDown(norm_opt(n)),
+        CursorForward(n) => CursorForward(norm_opt(n)),
+        CursorBack(n) => CursorBack(norm_opt(n)),
+        CursorDown1(n) => CursorDown1(norm_opt(n)),
+        CursorUp1(n) => CursorUp1(norm_opt(n)),
+        CursorToColumn(n) => CursorToColumn(norm_opt(n)),
+        CursorPosition(a, b) => CursorPosition(norm_opt(a), norm_opt(b)),
+        EraseInDisplay(n) => EraseInDisplay(norm_opt(n)),
+        EraseInLine(n) => EraseInLine(norm_opt(n)),
+        InsertLines(n) => InsertLines(norm_opt(n)),
+        DeleteLines(n) => DeleteLines(norm_opt(n)),
+        DeleteCharacters(n) => DeleteCharacters(norm_opt(n)),
+        EraseCharacters(n) => EraseCharacters(norm_opt(n)),
+        ReportDeviceAttributes(n) => ReportDeviceAttributes(norm_opt(n)),
+        CursorToLine(n) => CursorToLine(norm_opt(n)),
+        ClearTabStop(n) => ClearTabStop(norm_opt(n)),
+        SetMargins(a, b) => SetMargins(norm_opt(a), norm_opt(b)),
+        other => other.clone(),
+    })
+}
+
+/// merge adjacent text events after normalisation
+pub fn norm_log(v: &[Call]) -> Vec<Call> {
+    let mut out: Vec<Call> = Vec::new();
+    for c in v {
+        if let Some(n) = norm_call(c) {
+            if let (Call::Draw(s), Some(Call::Draw(prev))) = (&n, out.last_mut()) {
+                prev.push_str(s);
+                continue;
+            }
+            out.push(n);
+        }
+    }
+    out
+}
+
+#[derive(Clone, Debug, PartialEq, Eq)]
+enum Tok {
+    Ch(char),
+    Ev(Call),
+    Multi,
+    Tail,
+}
+
+fn toks_of_call(c: &Call, out: &mut Vec<Tok>) {
+    if let Some(n) = norm_call(c) {
+        match n {
+            Call::Draw(s) => out.extend(s.chars().map(Tok::Ch)),
+            other => out.push(Tok::Ev(other)),
+        }
+    }
+}
+
+/// Compare an observed log with the expectation; None = conforms.  Text is compared character
+/// by character (how it is split into draw() calls is not part of the contract).
+pub fn conforms(exp: &[Exp], got: &[Call]) -> Option<String> {
+    let mut g: Vec<Tok> = Vec::new();
+    for c in got {
+        toks_of_call(c, &mut g);
+    }
+    let mut e: Vec<Tok> = Vec::new();
+    for x in exp {
+        match x {
+            Exp::Ev(c) => toks_of_call(c, &mut e),
+            Exp::OscMulti => e.push(Tok::Multi),
+            Exp::LenientTail => e.push(Tok::Tail),
+        }
+    }
+    fn go(e: &[Tok], g: &[Tok], ei: usize, gi: usize, first_err: &mut Option<String>) -> bool {
+        if ei == e.len() {
+            if gi == g.len() {
+                return true;
+            }
+            if first_err.is_none() {
+                *first_err = Some(format!("unexpected extra item {:?}", g[gi]));
+            }
+            return false;
+        }
+        match &e[ei] {
+            Tok::Tail => true,
+            Tok::Multi => {
+                // zero or more title/icon events (non-greedy, with backtracking)
+                let mut k = gi;
+                loop {
+                    if go(e, g, ei + 1, k, first_err) {
+                        return true;
+                    }
+                    if k < g.len() && matches!(g[k], Tok::Ev(Call::SetTitle(_)) | Tok::Ev(Call::SetIconName(_))) {
+                        k += 1;
+                    } else {
+                        return false;
+                    }
+                }
+            }
+            t => {
+                if gi >= g.len() {
+                    if first_err.is_none() {
+                        *first_err = Some(format!("expected item #{} {:?} but the observed log ended ({} items)", ei, t, g.len()));
+                    }
+                    return false;
+                }
+                if &g[gi] != t {
+                    if first_err.is_none() {
+                        *first_err = Some(format!("item #{}: expected {:?}, observed {:?}", ei, t, g[gi]));
+                    }
+                    return false;
+                }
+                go(e, g, ei + 1, gi + 1, first_err)
+            }
+        }
+    }
+    let mut err = None;
+    if go(&e, &g, 0, 0, &mut err) {
+        None
+    } else {
+        Some(err.unwrap_or_else(|| "logs differ".into()))
+    }
+}
+
+/// merge adjacent text events, keeping every character (both sides come from the same recogniser)
+pub fn norm_log_keep_cc(v: &[Call]) -> Vec<Call> {
+    let mut out: Vec<Call> = Vec::new();
+    for c in v {
+        if let (Call::Draw(s), Some(Call::Draw(prev))) = (c, out.last_mut()) {
+            prev.push_str(s);
+            continue;
+        }
+        if matches!(c, Call::Draw(s) if s.is_empty()) {
+            continue;
+        }
+        out.push(c.clone());
+    }
+    out
+}
